@@ -8,6 +8,7 @@ be unchanged (and not share mutable lists with the output), a second rewriter an
 same result, and for the bijection the inverse map must restore the original.
 """
 import copy
+import os
 
 import project
 import tlc
@@ -88,12 +89,23 @@ def run(ctx):
                 "like keys, named parameters, lambdas binding key names) x 17 alias maps; non-trivial = distinct pair "
                 "whose expected result differs from the input")
     ctx.trusted = ["spec/Rewrite.tla Subst (laws checked by TLC)", "harness/project.py"]
+    big = ctx.tier != "quick"
+    raw = os.path.join(tlc.BUILD, "c14_export_%d.txt" % os.getpid()) if big else None
     res = tlc.run("MC_C14", constants={"MaxOps": 1 if ctx.tier == "quick" else 2},
-                  keep_lines=lambda r: r.get("k") == "case", timeout=7000, heap="12g")
+                  keep_lines=lambda r: r.get("k") == "case", timeout=7000, heap="12g", raw_out=raw)
     ctx.add_tlc(res)
     if res.violation:
         ctx.violation({"kind": "model", "inv": res.violation}, {"tlc": res.raw_tail[-2000:]})
-    ctx.parallel(res.records, check_cases)
+    if big:
+        # millions of (tree, map) pairs: decoded and replayed in slices by forked workers, never held in memory
+        try:
+            n = ctx.parallel_file(raw, check_cases, keep=lambda r: r.get("k") == "case")
+        finally:
+            os.unlink(raw)
+        if res.violation is None and n != res.distinct:
+            raise tlc.MachineryError("C14: %d exported lines decoded, TLC reports %d distinct states" % (n, res.distinct))
+    else:
+        ctx.parallel(res.records, check_cases)
     ctx.exhaustive = True
 
 
